@@ -18,6 +18,8 @@
 #include "gatery/pch.h"
 #include "BitVectorState.h"
 
+#include <cerrno>
+
 namespace gtry::sim {
 
 template class BitVectorState<DefaultConfig>;
@@ -217,8 +219,10 @@ DefaultBitVectorState parseBitVector(std::string_view value)
 
 	auto parseDec = [&](auto& ctx) {
 		std::string_view numStr = _attr(ctx);
+		errno = 0;
 		uint64_t num = std::strtoull(numStr.data(), nullptr, 10);
-		uint64_t width = utils::Log2C(num + 1);
+		HCL_DESIGNCHECK_HINT(errno != ERANGE, "decimal UInt literals are limited to 64 bit values");
+		uint64_t width = (num == ~0ull) ? 64 : utils::Log2C(num + 1);
 
 		if (ret.size() == 0)
 			ret.resize(width);
@@ -366,8 +370,10 @@ ExtendedBitVectorState parseExtendedBitVector(std::string_view value)
 
 	auto parseDec = [&](auto& ctx) {
 		std::string_view numStr = _attr(ctx);
+		errno = 0;
 		uint64_t num = std::strtoull(numStr.data(), nullptr, 10);
-		uint64_t width = utils::Log2C(num + 1);
+		HCL_DESIGNCHECK_HINT(errno != ERANGE, "decimal UInt literals are limited to 64 bit values");
+		uint64_t width = (num == ~0ull) ? 64 : utils::Log2C(num + 1);
 
 		if (ret.size() == 0)
 			ret.resize(width);
